@@ -208,12 +208,15 @@ fn rand_scenario(rng: &mut Rng, n: usize, allow_stop: bool) -> Vec<Visit> {
     for i in 0..k {
         let (kind, a, b) = rand_filter(rng, n);
         let stop: i64 = if allow_stop && rng.chance(1, 5) {
-            if rng.chance(1, 3) { -2 } else { rng.below(3 * n + 3) as i64 }
+            if rng.chance(1, 3) { -2 } else if rng.chance(1, 4) { 0 } else { rng.below(3 * n + 3) as i64 }
         } else { -1 };
         let reset = force_reset || (i > 0 && rng.chance(1, 3));
         vis.push(Visit { reset, roots: rand_roots(rng, n), kind, a, b, stop });
-        // an interrupted visit leaves frames on the stack: it must be reset before reuse
-        force_reset = stop != -1;
+        // an interrupted visit leaves frames on the stack: it must be reset before reuse --
+        // except when the callback breaks on the very first event, the Init of the first
+        // root that is not known yet: nothing has been marked or pushed at that point, so the
+        // visit object may be used again as it is
+        force_reset = stop != -1 && stop != 0;
     }
     vis
 }
